@@ -913,8 +913,10 @@ func oracleBytes(k *kind, in []byte, expectReject, origin string, o *vt.Obs) err
 		return nil
 	}
 	canonical := bytes.Equal(used, e1)
-	if k.isNodeterm(e1) {
-		canonical = len(used) == len(e1) || k.nodetermFn != nil
+	if k.sameEncoding != nil {
+		canonical = k.sameEncoding(used, e1)
+	} else if k.isNodeterm(e1) {
+		canonical = len(used) == len(e1)
 	}
 	nkey := ""
 	if !canonical {
